@@ -136,8 +136,9 @@ def play(history, sets, perms, scale, sets2=None):
     ver = {k: 1 for k in sets}
     cur = lambda k: sets[k] if ver[k] == 1 else sets2[k]
     objs = {k: fresh_nodes(v) for k, v in sets.items()}
-    f = Force()
-    f.set_options(to_force_opts(OPT0, scale))
+    cfgdict = to_force_opts(OPT0, scale)
+    f = Force(cfgdict)
+    twin = Force(cfgdict)          # a second engine built from the very same dict object: engines share nothing
     acc = dict(OPT0)
     loaded = None
     ev = []
@@ -155,6 +156,8 @@ def play(history, sets, perms, scale, sets2=None):
             d = DELTAS[a[2:]]
             f.set_options(to_force_opts(d, scale))
             acc.update(d)
+        elif a.startswith("X:"):
+            twin.set_options(to_force_opts(DELTAS[a[2:]], scale))       # the OTHER engine is re-configured
         elif a.startswith("M:"):
             k = a[2:]
             ver[k] = 3 - ver[k]
@@ -227,7 +230,7 @@ def random_case(rng):
         rng.shuffle(p)
         perms["P" + name] = p
     alphabet = ["N:A", "N:B", "N:PA", "N:PB", "O:d1", "O:d2", "O:d3", "O:d4", "O:d5", "O:d6", "O:d7", "O:d8", "C", "C", "C", "C", "F:A", "F:B",
-                "M:A", "M:B"]
+                "M:A", "M:B", "X:d1", "X:d3", "X:d6", "X:d8"]
     h = [rng.choice(["N:A", "N:B", "N:PA"])]
     for _ in range(rng.randint(2, 11)):
         h.append(rng.choice(alphabet))
